@@ -515,3 +515,33 @@ Proof.
   - contradiction.
   - rewrite po_find_ensure, E. exact Hq.
 Qed.
+
+(* wide arguments: only the converted key matters, and the converted history is an ordinary history *)
+Lemma fm_conv_same_key t m a b v :
+  conv t a = conv t b ->
+  fm_step_conv t m (FAt a) = fm_step_conv t m (FAt b) /\
+  fm_step_conv t m (FIndex a) = fm_step_conv t m (FIndex b) /\
+  fm_step_conv t m (FSet a v) = fm_step_conv t m (FSet b v) /\
+  fm_step_conv t m (FContains a) = fm_step_conv t m (FContains b) /\
+  fm_step_conv t m (FErase a) = fm_step_conv t m (FErase b) /\
+  fm_step_conv t m (FAtC a) = fm_step_conv t m (FAtC b).
+Proof. intro H. unfold fm_step_conv. cbn [fm_op_conv]. rewrite H. repeat split. Qed.
+
+Lemma fm_conv_run_nodup t ops : NoDup (map fst (fst (fm_run (map (fm_op_conv t) ops)))).
+Proof. apply fm_run_inv. Qed.
+
+(* after `m[a] = v` every argument converting to the same key finds v, contains() it, and erase(b) removes it *)
+Lemma fm_conv_set_then_find t m a b v :
+  fm_inv m -> conv t a = conv t b ->
+  let m' := fst (fm_step_conv t m (FSet a v)) in
+  snd (fm_step_conv t m' (FAt b)) = OVal v /\ snd (fm_step_conv t m' (FContains b)) = OBool true /\
+  fm_lookup (fst (fm_step_conv t m' (FErase b))) (conv t a) = None.
+Proof.
+  intros ND H m'. subst m'. unfold fm_step_conv. cbn [fm_op_conv]. rewrite <- H.
+  set (k := conv t a).
+  assert (L : fm_lookup (fst (fm_step m (FSet k v))) k = Some v).
+  { rewrite (fm_step_lookup m (FSet k v) k ND). cbn. rewrite N.eqb_refl. reflexivity. }
+  cbn [fm_step snd fst] in *. rewrite L. repeat split.
+  rewrite lookup_erase. rewrite N.eqb_refl. reflexivity.
+Qed.
+
